@@ -109,6 +109,9 @@ fn check5(c: &Case<'_>, it: &Item5, limit: u32, declined: bool) {
         let _ = codec.decode(&mut buf);
     }
     codec.set_max_outbound_size(limit);
+    // a copy of the configured codec (what `Client::into_inner()` hands out) obeys the same
+    // outbound limit; it forgets what was negotiated, so only the plain case can be compared
+    let codec = if !declined && limit % 3 == 1 { codec.clone() } else { codec };
     let mut dst = BytePages::default();
     dst.extend_from_slice(PREFIX);
     let before = dst.len();
